@@ -78,6 +78,37 @@ class Inconclusive(Exception):
     pass
 
 
+BIN_ASAN = os.path.join(HARNESS, "target-asan", "x86_64-unknown-linux-gnu", "release", "abra-verif")
+_built_asan = False
+
+
+def build_asan():
+    """AddressSanitizer build of the same executor (nightly, -Zsanitizer=address); ~1 min the first time."""
+    global _built_asan
+    if _built_asan:
+        return
+    env = dict(os.environ, CARGO_NET_OFFLINE="true", RUSTFLAGS="-Zsanitizer=address -Cforce-frame-pointers=yes",
+               CARGO_TARGET_DIR=os.path.join(HARNESS, "target-asan"))
+    p = subprocess.run(["cargo", "+nightly", "build", "--release", "--offline", "--quiet", "--target", "x86_64-unknown-linux-gnu"],
+                       cwd=HARNESS, env=env, stdout=subprocess.PIPE, stderr=subprocess.STDOUT, text=True)
+    if p.returncode != 0:
+        sys.stdout.write(p.stdout[-3000:])
+        raise Inconclusive("AddressSanitizer build of the executor failed")
+    _built_asan = True
+
+
+def asan_report(res):
+    """(class, text) of an AddressSanitizer report in a job result, or None"""
+    import re
+    err = (res.get("crash") or {}).get("stderr") or ""
+    m = re.search(r"ERROR: AddressSanitizer: ([\w-]+)", err)
+    if not m:
+        return None
+    frames = re.findall(r"#\d+ 0x[0-9a-f]+ in (\S+)", err)
+    site = next((f for f in frames if "abra_core" in f), frames[0] if frames else "?")
+    return ("asan:%s@%s" % (m.group(1), re.sub(r"::h[0-9a-f]{16}$", "", site)[:80]), err[-2500:])
+
+
 _built = False
 
 
@@ -105,6 +136,7 @@ class Executor:
         self.crash_logs = []
 
     count_alloc = False   # set by checks that need the executor's counting allocator (C07)
+    asan = False          # run the AddressSanitizer build of the executor (real frees: use with quarantine off)
 
     def _run_once(self, jobs, threads, timeout_s, job_timeout_s):
         self.n += 1
@@ -115,9 +147,14 @@ class Executor:
         env = dict(os.environ, RUST_BACKTRACE="0")
         if self.count_alloc:
             env["VERIF_COUNT_ALLOC"] = "1"
+        binary = BIN
+        if self.asan:
+            build_asan()
+            binary = BIN_ASAN
+            env["ASAN_OPTIONS"] = "halt_on_error=1:detect_leaks=0:abort_on_error=0:detect_stack_use_after_return=0"
         try:
             p = subprocess.run(
-                [BIN, "exec", base + ".jobs", base + ".res", base + ".jrn", str(threads), str(job_timeout_s)],
+                [binary, "exec", base + ".jobs", base + ".res", base + ".jrn", str(threads), str(job_timeout_s)],
                 stdout=subprocess.PIPE, stderr=subprocess.PIPE, timeout=timeout_s, env=env)
             rc = p.returncode
             err = p.stderr.decode("utf-8", "replace")[-3000:]
@@ -202,6 +239,10 @@ class Executor:
     def run_alone(self, job, job_timeout_s=300):
         """Fresh single-threaded process for one job (confirmation / replay)."""
         build()
+        if job.get("asan") and not self.asan:
+            ex = Executor(os.path.basename(os.path.dirname(self.dir)) + "-asan")
+            ex.asan = True
+            return ex.run_alone(job, job_timeout_s)
         rc, err, results, inflight, timed = self._run_once([job], 1, 3600, job_timeout_s)
         if rc == 0 and job["id"] in results:
             return results[job["id"]]
@@ -298,6 +339,38 @@ class Ctx:
     def need(self, cond, why):
         if not cond:
             self.inconclusive.append(why)
+
+
+def asan_slice(ctx, jobs, what):
+    """Run `jobs` on the AddressSanitizer build of the executor (real frees: the jobs must not ask for
+    the quarantine). Every report is confirmed by re-running its job alone under ASan and then
+    registered as a violation; returns (results, number of runs executed, reports found)."""
+    ex = Executor(ctx.prop.lower() + "-asan")
+    ex.asan = True
+    results = ex.run(jobs, threads=NCPU, job_timeout_s=600)
+    nruns = 0
+    reports = 0
+    seen = set()
+    for job in jobs:
+        res = results.get(job["id"], {})
+        nruns += len(res.get("runs") or [])
+        rep = asan_report(res)
+        if rep is None:
+            if "crash" in res:
+                ctx.notes.append("ASan build: job %s died without a sanitizer report (rc=%s)" % (job["id"], res["crash"].get("rc")))
+            continue
+        cls, text = rep
+        sig = "%s %s %s" % (ctx.prop, what, cls)
+        if sig in seen:
+            continue
+        seen.add(sig)
+        again = asan_report(ex.run_alone(job, job_timeout_s=600))
+        if again is None or again[0] != cls:
+            ctx.notes.append("ASan report not reproduced alone: %s" % sig)
+            continue
+        reports += 1
+        ctx.direct.append((sig, "AddressSanitizer report while running job %s:\n%s" % (job["id"], text), dict(job, asan=True)))
+    return results, nruns, reports
 
 
 def finish(ctx, replay_mode=False):
